@@ -167,10 +167,16 @@ def world(wid, jpl):
     fr = {
         "S0": create_station(f"W{wid}S0", spec["stations"][0]),
         "S1": create_station(f"W{wid}S1", spec["stations"][1]),
-        "ORB": frames.orbit2frame(f"W{wid}O", orb, parent=parent),
-        "QSW": frames.orbit2frame(f"W{wid}Q", orb, orientation="QSW", parent=parent),
-        "TNW": frames.orbit2frame(f"W{wid}T", orb, orientation="TNW", parent=parent),
     }
+    if wid % 2:
+        # the same thing asked through the method of the orbit (keyword arguments passed on)
+        fr["ORB"] = orb.as_frame(f"W{wid}O", parent=parent)
+        fr["QSW"] = orb.as_frame(f"W{wid}Q", orientation="QSW", parent=parent)
+        fr["TNW"] = orb.as_frame(f"W{wid}T", orientation="TNW", parent=parent)
+    else:
+        fr["ORB"] = frames.orbit2frame(f"W{wid}O", orb, None, parent)
+        fr["QSW"] = frames.orbit2frame(f"W{wid}Q", orb, "QSW", parent)
+        fr["TNW"] = frames.orbit2frame(f"W{wid}T", orb, orientation="TNW", parent=parent)
     for name in BUILTIN + (JPL if jpl else []):
         fr[name] = frames.get_frame(name)
     fr["_spec"] = spec
@@ -259,7 +265,7 @@ def _base_case(draw, shard, worlds_per_shard=3):
 def pair_case(draw, shard, tier):
     d, c = _base_case(draw, shard)
     c["setter"] = d.coin()
-    c["how"] = dict(container=d.int(0, 5), clone=d.int(0, 4), spell=d.int(0, 2), held=d.int(0, 2))
+    c["how"] = dict(container=d.int(0, 5), clone=d.int(0, 4), spell=d.int(0, 3), held=d.int(0, 2))
     return c
 
 
@@ -335,7 +341,7 @@ def era_label(mjd):
 
 CONTAINERS = ["list", "tuple", "f64", "f32", "ints", "i64"]
 CLONES = ["none", ".copy()", "pickle", "copy.copy", "copy.deepcopy"]
-SPELLS = ["object", "name", "same"]
+SPELLS = ["object", "name", "same", "transform"]
 HELD = ["cartesian", "spherical", "cylindrical"]  # mu-free forms; element forms: facet forms_across_bodies
 
 
@@ -399,12 +405,24 @@ def convert(fr, state, dt, a, b, setter=False, how=None):
     sv = StateVector(arg, dt, "cartesian", fr[a])
     held = how.get("held", "cartesian")
     spell = how.get("spell", "object")
+    if spell == "transform":
+        # the method the setter itself relies on, called directly on a cartesian state
+        out = fr[a].transform(StateVector(arg, dt, "cartesian", fr[a]), fr[b])
+        res = np.array(out, float)
+        if not np.all(np.isfinite(res)):
+            raise Violation("non-finite", f"{a}->{b}: {res.tolist()}")
+        return res
     if held != "cartesian" and (setter or spell != "same"):
         sv = sv.copy(form=held)  # (with same=<template> the template alone says which form comes out)
     original, kept = sv, (np.array(sv.base, float), sv.frame, sv.form.name)
     sv = clone_of(sv, how.get("clone", "none"))
     if sv is not original and (np.shares_memory(np.asarray(sv.base), np.asarray(original.base)) or sv._data is original._data):
         raise Violation("clone-shares", f"{how.get('clone')} of a state shares its buffer or attributes with the original")
+    if sv is not original and how.get("spoil"):
+        # the clone was taken BEFORE the caller went on changing his own object in place
+        original.frame = fr["MOD" if a != "MOD" else "TOD"]
+        original.form = "cylindrical" if held != "cylindrical" else "cartesian"
+        kept = (np.array(original.base, float), original.frame, original.form.name)
     if setter:
         sv.frame = frame_spelling(fr, b, "name" if spell == "same" else spell)
         out = sv
@@ -501,9 +519,10 @@ def check_inverse(case):
                 how = dict(container=CONTAINERS[(base["container"] + k) % len(CONTAINERS)],
                            clone=CLONES[(base["clone"] + k // 2) % len(CLONES)],
                            spell=SPELLS[(base["spell"] + k // 3) % len(SPELLS)],
-                           held=HELD[(base["held"] + k // 5) % len(HELD)])
+                           held=HELD[(base["held"] + k // 5) % len(HELD)], spoil=(k // 7) % 2 == 0)
                 for v in how.values():
-                    used.add(v)
+                    if isinstance(v, str):
+                        used.add(v)
             x_in = shape_state(x, how["container"])[1] if how else x
             y = convert(fr, x_in, dt, a, b, setter, how)
             factor = 1.0
@@ -526,7 +545,40 @@ def check_inverse(case):
                 z = reconvert(fr, y, dt, b, a, setter, how)
                 worst = max(worst, close(z, x_in, (x_in, y), f"inverse: {a}->{b}->{a}" + (f" ({how})" if how else ""), factor))
             n += 1
+    worst = max(worst, ties_and_refusals(fr, x, dt, names, case))
     return dict(nt=True, cls=case_classes(case) + [f"pairs:{n}"] + sorted("how:" + u for u in used), ratio=worst)
+
+
+def ties_and_refusals(fr, x, dt, names, case):
+    """A frame change to the frame the state is already in leaves every number as it is; a frame change that is
+    refused (the Hill frame cannot be converted, an unknown name) leaves the whole object as it was."""
+    from beyond.errors import UnknownFrameError
+    from beyond.orbits import StateVector
+
+    for k, a in enumerate(names):
+        held = HELD[(k + case["mjd"]) % len(HELD)]
+        sv = StateVector(list(x), dt, "cartesian", fr[a]).copy(form=held)
+        snap = np.array(sv.base, float)
+        for how, got in (("copy(frame=same frame)", sv.copy(frame=fr[a])), ("copy(frame=its name)", sv.copy(frame=fr[a].name))):
+            if not (np.array_equal(np.asarray(got.base, float), snap) and got.frame is fr[a] and got.form.name == held):
+                raise Violation("same-frame", f"{a}: {how} changed the state")
+        # (towards the Hill frame the refusal comes from the orientation graph: ValueError "Unknown 'QSW'")
+        for target, exc in (("Hill", (RuntimeError, ValueError)), ("NoSuchFrame", UnknownFrameError)):
+            for way in ("setter", "copy"):
+                try:
+                    if way == "setter":
+                        sv.frame = target
+                    else:
+                        sv.copy(frame=target)
+                except exc:
+                    pass
+                else:
+                    raise Violation("refusal-missing", f"{a} -> {target} by {way} was not refused")
+                if not (np.array_equal(np.asarray(sv.base, float), snap) and sv.frame is fr[a] and sv.form.name == held):
+                    raise Violation("refusal-not-atomic",
+                                    f"{a} -> {target} by {way} was refused but left the state in {sv.frame}/{sv.form.name} "
+                                    f"with other numbers (it was held in {held})")
+    return 0.0
 
 
 # ----------------------------------------------------------------- facet: path independence
